@@ -30,7 +30,7 @@ def run(tier, seed):
     from contracts import fn_registry as R
     from contracts import fn_io as F
     items += [(R.system_add('C11'),), (R.modeldata_add('C11'),), (F.numparam_add('C11'),),
-              (F.writer_refreshes('C11', 'xlsx'), None, F.replay_altered_dump), (F.writer_refreshes('C11', 'json'), None, F.replay_altered_dump)]
+              (P.as_df('C11'), None, P.replay_as_df_after_reset), (F.writer_refreshes('C11', 'xlsx'), None, F.replay_altered_dump), (F.writer_refreshes('C11', 'json'), None, F.replay_altered_dump)]
     run_contracts(pack, items)
     from contracts.packutil import native_guard
     from contracts import bounded_pu as BPU
